@@ -47,29 +47,52 @@ Definition topo_pass (tp : Route.topo) (N : nat) (c : list mgate) : result (list
   | None => Error
   end.
 
-Definition run_pass (d : device) (N : nat) (p : pass) (c : list mgate) : result (list mgate) :=
+(* the topology the circuit is routed on: a circuit narrower than the processor may be treated differently (a narrower
+   circuit on a ring occupies an open segment of it) *)
+Definition route_kind (d : device) (Ndev M : nat) : topo_kind :=
+  if Nat.ltb M Ndev then match dnarrow d with Some t => t | None => dtopo d end else dtopo d.
+(* the guard loop of topology_map: a gate of one of the names [dunrouted] must sit on neighbours targets[0], targets[1]
+   (IndexError / TypeError when it has fewer than two targets) *)
+Definition near_targets (g : mgate) : bool :=
+  match gtargets g with
+  | a :: b :: _ => Nat.eqb (S a) b || Nat.eqb (S b) a
+  | _ => false
+  end.
+Definition unrouted_ok (d : device) (c : list mgate) : bool :=
+  forallb (fun g => negb (mem (gname g) (dunrouted d)) || near_targets g) c.
+
+(* [Ndev] = number of qubits of the processor, [M] = width of the circuit (qc.N) *)
+Definition run_pass (d : device) (Ndev M : nat) (p : pass) (c : list mgate) : result (list mgate) :=
   match p with
+  | PWidth => if Nat.ltb Ndev M then Error else Ok c
   | PExpand => match dnative d with Some l => expand (BList l) c | None => Ok c end
   | PTopology => match dtopo d with
                  | TopoNone => Ok c
-                 | TopoLinear => topo_pass Route.Linear N c
-                 | TopoCircular => topo_pass Route.Circular N c
+                 | _ => if unrouted_ok d c then
+                          match route_kind d Ndev M with
+                          | TopoNone => Ok c
+                          | TopoLinear => topo_pass Route.Linear M c
+                          | TopoCircular => topo_pass Route.Circular M c
+                          end
+                        else Error
                  end
   | PResolve => match dnative d with Some l => resolve (BList l) c | None => Ok c end
   end.
-Definition transpile_gen (ps : list pass) (d : device) (N : nat) (c : list mgate) : result (list mgate) :=
-  fold_left (fun r p => rbind r (run_pass d N p)) ps (Ok c).
+Definition transpile_gen (ps : list pass) (d : device) (Ndev M : nat) (c : list mgate) : result (list mgate) :=
+  fold_left (fun r p => rbind r (run_pass d Ndev M p)) ps (Ok c).
 (* the code that exists: the order of the statements is read off the source by the translator *)
-Definition transpile : device -> nat -> list mgate -> result (list mgate) := transpile_gen transpile_passes.
+Definition transpile_on : device -> nat -> nat -> list mgate -> result (list mgate) := transpile_gen transpile_passes.
+(* the common case: the circuit is as wide as the processor *)
+Definition transpile (d : device) (N : nat) (c : list mgate) : result (list mgate) := transpile_on d N N c.
 (* the code as it was found: topology map first, decomposition afterwards *)
-Definition transpile_unfixed : device -> nat -> list mgate -> result (list mgate) := transpile_gen [PTopology; PResolve].
+Definition transpile_unfixed : device -> nat -> nat -> list mgate -> result (list mgate) := transpile_gen [PTopology; PResolve].
 
 (* circuits may also hold measurements: both to_chain_structure (passes them on) and resolve_gates (refuses) see them;
    every processor of the table has native gates, so the circuit is refused *)
-Definition transpile_ops (d : device) (N : nat) (ops : list op) : result (list mgate) :=
+Definition transpile_ops (d : device) (Ndev M : nat) (ops : list op) : result (list mgate) :=
   if existsb (fun o => match o with OpMeasure => true | _ => false end) ops
   then match dnative d with Some _ => Error | None => Ok (gates_of ops) end
-  else transpile d N (gates_of ops).
+  else transpile_on d Ndev M (gates_of ops).
 
 (* ---- the predicates of the property ------------------------------------------------------------------------------ *)
 Definition qubits (g : mgate) : list nat := (gcontrols g ++ gtargets g)%list.
